@@ -1136,6 +1136,42 @@ func c08Codec(c *Ctx) {
 	}{{add, "+", "Add"}, {del, "-", "Del"}} {
 		calls := callsTo(ba, func(f *types.Func) bool { return f == t.f })
 		ok := len(calls) == 1 && opFact(calls[0], t.want)
+		if len(calls) == 0 {
+			// the operation chosen once as a method value (schedule = batch.Add under Op == "+") and applied to every
+			// record through that value
+			var binds []*ssa.MakeClosure
+			for _, b := range ba.Blocks {
+				for _, in := range b.Instrs {
+					if mc, isMC := in.(*ssa.MakeClosure); isMC {
+						if bf, isF := mc.Fn.(*ssa.Function); isF && bf.Object() == types.Object(t.f) && strings.HasSuffix(bf.Name(), "$bound") {
+							binds = append(binds, mc)
+						}
+					}
+				}
+			}
+			if len(binds) == 1 {
+				called := false
+				for _, ci := range callInstrs(ba) {
+					if ci.Common().IsInvoke() || ci.Common().StaticCallee() != nil {
+						continue
+					}
+					if sourcesOf(ci.Common().Value)[binds[0]] {
+						called = true
+					}
+				}
+				ok = called && hasFact(binds[0].Block(), func(v ssa.Value, truth bool) bool {
+					b, isB := v.(*ssa.BinOp)
+					if !isB || b.Op != token.EQL || !truth {
+						return false
+					}
+					sv, isS := stringConst(b.Y)
+					if !isS {
+						sv, isS = stringConst(b.X)
+					}
+					return isS && sv == t.want
+				})
+			}
+		}
 		c.Check(rule, fnName(ba)+"|"+t.want+"→Batch."+t.name, ok, ba.Pos(), "diff operation '"+t.want+"' maps to Batch."+t.name)
 	}
 	// exhaustive ops
